@@ -225,6 +225,9 @@ def _execute(program, stats, hist):
         pls = [(s, "1d") for s in samples]
         if n_times >= 2:
             pls.append((torch.stack(samples, dim=1), "multi"))
+        if n_paths >= 2 and bool(torch.isfinite(samples[0]).all()):
+            # a multi-column sample in which one column is constant (a fully hedged book next to an open one)
+            pls.append((torch.stack(samples + [torch.full_like(samples[0], float(samples[0].mean()))], dim=1), "multi"))
         # cash(x, target=z) is the cash amount of the P&L x - z
         for s_, c_ in zip(samples, cashes):
             if bool(torch.isfinite(s_).all()) and not (ck == "IsoelasticLoss" and float(s_.min()) <= 0):
